@@ -693,29 +693,14 @@ def sync_do_first(environment: "Environment", seq: "t.Iterable[V]") -> "V | Unde
         return environment.undefined("No first item, sequence was empty.")
 
 
-# file name of this module's code objects, to recognise its own async generators
-_module_code_filename = sync_do_first.__code__.co_filename
-
-
 @async_variant(sync_do_first)  # type: ignore
 async def do_first(
     environment: "Environment", seq: "t.AsyncIterable[V] | t.Iterable[V]"
 ) -> "V | Undefined":
-    it = auto_aiter(seq)
-
     try:
-        return await it.__anext__()
+        return await auto_aiter(seq).__anext__()
     except StopAsyncIteration:
         return environment.undefined("No first item, sequence was empty.")
-    finally:
-        # The async generators made by the lazy filters of this module (map,
-        # select, reject, ...) belong to the engine: nothing else can resume
-        # one after its first item was taken, so close it instead of leaving
-        # it suspended. Iterables owned by the caller are left alone.
-        code = getattr(it, "ag_code", None)
-
-        if code is not None and code.co_filename == _module_code_filename:
-            await it.aclose()  # type: ignore
 
 
 @pass_environment
